@@ -623,6 +623,22 @@ def record_c18(rec, rng, thorough):
                                       len=call(lambda: len(sc))[1], probes=[dict(p, v=(p["v"] // 1024 if p["k"] == "ok" and abs(p["v"]) < 10 ** 9 else p["v"])) for p in index_probe(sc, n)]))
                         rec.cls("index_scores")
                         emit_view(rec, "scores", [], view_probe(sc, grid), dict(C=32, R=R, K=k, seq=ranks, pssm=rows))
+                        # ---- the same striped sequence reused with a SHORTER motif afterwards: indexing and views of the
+                        #      new scores (and of the sequence) must still show the logical contents only
+                        if w >= 3:
+                            w2 = rng.randint(1, w - 2)
+                            rows2 = rand_pssm(rng, w2, k)
+                            sc2 = call(lambda: make_pssm(rows2, protein).calculate(st))
+                            if sc2[0] == "ok":
+                                sc2 = sc2[1]
+                                n2 = max(L - w2 + 1, 0)
+                                rec.emit(dict(ev="py_index", kind="scores", logical=[], seq=ranks, pssm=rows2, K=k, scale=4,
+                                              len=call(lambda: len(sc2))[1], probes=[dict(p, v=(p["v"] // 1024 if p["k"] == "ok" and abs(p["v"]) < 10 ** 9 else p["v"])) for p in index_probe(sc2, n2)]))
+                                rec.cls("index_scores_after_reuse")
+                                emit_view(rec, "scores", [], view_probe(sc2, grid), dict(C=32, R=R, K=k, seq=ranks, pssm=rows2))
+                                emit_view(rec, "striped", ranks, view_probe(st, int), dict(C=32, R=R, K=k, wrap=w - 1))
+                            else:
+                                rec.emit(dict(ev="py_call", call="calculate_after_reuse", ret=sc2[0], msg=sc2[1], expect="ok"))
     # ---- matrices: widths whose row stride differs from the column count
     widths = list(range(0, 13)) + [16, 31, 40] if thorough else [0, 1, 2, 3, 4, 5, 8, 9, 16, 40]
     for m in widths:
